@@ -6,6 +6,15 @@ import os, re, json
 
 MOD = "example.com/vb"
 
+# non-zero value of a named type %(T)s whose underlying type is the key
+NAMED_MK = {
+    'bool': '%(T)s(true)', 'int': '%(T)s(7)', 'float64': '%(T)s(1.5)', 'complex128': '%(T)s(complex(1, 2))', 'string': '%(T)s(tok)',
+    'uintptr': '%(T)s(9)', '[2]int': '%(T)s{1, 2}', 'struct{ A int }': '%(T)s{A: 1}', '*int': '%(T)s(new(int))', '[]int': '%(T)s{1}',
+    'map[string]int': '%(T)s{tok: 1}', 'chan int': 'make(%(T)s)', 'func() int': '%(T)s(func() int { return 1 })',
+    'interface{}': '%(T)s(tok)', 'error': '%(T)s(errString(tok))', '[]T2': '%(T)s{MkT2(tok)}', 'map[T2]*T2': '%(T)s{MkT2(tok): nil}',
+    '*T2': 'func() %(T)s { v := MkT2(tok); return &v }()', 'T2': '%(T)s(MkT2(tok))', 'unsafe.Pointer': '%(T)s(unsafe.Pointer(new(int)))',
+}
+
 
 def split_type(t):
     pre = []
@@ -113,7 +122,9 @@ class Case:
     def imports(self, frompkg, used, extra=()):
         lines = []
         for p in sorted(used):
-            if p != frompkg:
+            if p == '!unsafe':
+                lines.append('\t"unsafe"')
+            elif p != frompkg:
                 lines.append('\t%s "%s"' % (p, self.pkgpath(p)))
         for e in extra:
             lines.append('\t' + e)
@@ -147,11 +158,22 @@ class Case:
                 for j in self.if_closure(i):
                     body.append('func (X%s) M%s() {}\n' % (i, j))
                 body.append('func Mk%s(tok string) %s { return X%s{Tok: tok} }\n' % (i, i, i))
+            elif at['kind'] == 'named':
+                g = at['go']
+                alias = g.startswith('=')
+                if alias:
+                    g = g[1:]
+                if 'unsafe.' in g:
+                    used.add('!unsafe')
+                body.append('type %s %s%s\n' % (i, '= ' if alias else '', g))
+                body.append('func Mk%s(tok string) %s { _ = tok; return %s }\n' % (i, i, NAMED_MK[g] % {'T': i}))
             for m in at.get('impl', []):
                 star = '*' if m['recv'] == 'pointer' else ''
                 body.append('func (%s%s) M%s() {}\n' % (star, i, m['iface']))
         needq = any((l.get('res') or []) and l['pkg'] == pkg for l in self.P['leaves'] if l['k'] == 'func') or \
             (pkg == 'a' and any((i.get('res') or []) for i in self.P['injs']))
+        if any(a['kind'] == 'named' and a['go'].lstrip('=') == 'error' and a['pkg'] == pkg for a in self.P['atoms']):
+            body.append('type errString string\n\nfunc (e errString) Error() string { return string(e) }\n')
         if needq:
             body.append('type VNamedFunc func()\ntype VErrAlias = error\ntype VErrLike interface{ Error() string }\n')
         return 'package %s\n\n%s%s' % (self.goname(pkg), self.imports(pkg, used), '\n'.join(body))
